@@ -76,7 +76,7 @@ func init() {
 					case "past":
 						cl["exp"] = time.Now().Add(-time.Hour).Unix()
 					case "expiring":
-						cl["exp"] = time.Now().Add(3 * time.Second).Unix()
+						cl["exp"] = time.Now().Add(4 * time.Second).Unix()
 					}
 					switch vpS(tok, "ev") {
 					case "false":
@@ -153,18 +153,25 @@ func init() {
 					obs["accepted"] = gen >= 1
 					obs["panic"] = r.Panic != ""
 				case "bearer_twice":
+					t0 := time.Now()
 					w.idp.mu.Lock()
 					token := w.idp.mintIDToken("alice", mut, alg)
 					w.idp.mu.Unlock()
 					r = w.do(vpReq{Target: "/private", Header: [][2]string{{"Authorization", "Bearer " + token}}})
+					if time.Since(t0) > 2500*time.Millisecond {
+						// (machine too busy: the first presentation may already have been past the expiry - no verdict for this case)
+						env.emit(vpOut{ID: c.ID, Err: "first presentation took too long for the 4 s token"})
+						continue
+					}
 					obs["accepted"] = r.UpHits > 0
-					time.Sleep(5 * time.Second)
+					time.Sleep(time.Until(t0.Add(6 * time.Second)))
 					r2 := w.do(vpReq{Target: "/private", Header: [][2]string{{"Authorization", "Bearer " + token}}})
 					obs["acceptedAfterExpiry"] = r2.UpHits > 0
 					obs["panic"] = r.Panic != "" || r2.Panic != ""
 					r = nil
 				case "validate_twice":
 					// the session's ID token expires in a few seconds; the provider refuses refreshes, so a stale session is re-validated
+					t0 := time.Now()
 					setBad("code")
 					if _, err := w.login(jar, "alice", ""); err != nil {
 						env.emit(vpOut{ID: c.ID, Err: "login: " + err.Error()})
@@ -180,8 +187,15 @@ func init() {
 						continue
 					}
 					r = w.get(jar, "/private")
+					if time.Since(t0) > 2500*time.Millisecond {
+						w.idp.mu.Lock()
+						w.idp.refreshMode = saveMode
+						w.idp.mu.Unlock()
+						env.emit(vpOut{ID: c.ID, Err: "first presentation took too long for the 4 s token"})
+						continue
+					}
 					obs["accepted"] = r.UpHits > 0
-					time.Sleep(5 * time.Second)
+					time.Sleep(time.Until(t0.Add(6 * time.Second)))
 					r2 := w.get(jar, "/private")
 					obs["acceptedAfterExpiry"] = r2.UpHits > 0
 					obs["panic"] = r.Panic != "" || r2.Panic != ""
